@@ -17,7 +17,7 @@ PROPS = {
         "assumptions": [],
     },
     "C02": {
-        "units": [("align", r"match_node_impl|match_nodes_impl_recursive|may_match_ellipsis_impl|match_single_node_while_skip_trivial"), ("strictness", r"Aggregator>::match_terminal|<ComputeEnd as Aggregator>::match_meta_var|match_leaf_meta_var")],
+        "units": [("align", r"match_node_impl|match_nodes_impl_recursive|may_match_ellipsis_impl|match_single_node_while_skip_trivial"), ("strictness", r"MatchStrictness::match_terminal|Aggregator>::match_terminal|<ComputeEnd as Aggregator>::match_meta_var|match_leaf_meta_var"), "preprocess"],
         "kani": [],
         "decided": ["if the pattern tree mirrors the node -- same kinds, same token text, same shape, with any number of sub-trees replaced by distinct `$VAR` holes that are not bound yet (a hole marked as named replacing a named node) -- then match_node_impl answers MatchedBoth at EVERY strictness level and the environment grows by exactly {hole -> the sub-tree it replaced}; in particular code free of `$` matches itself (unbounded; proved through the real mutually recursive alignment engine against the trait-level Aggregator contract, which unit strictness discharges for Cow<MetaVarEnv> via match_leaf_meta_var and MetaVarEnv::insert's contract)"],
         "not_decided": ["`$$$VAR` replacing a trailing run of siblings (the ellipsis path is only proved sound, C03)",
@@ -164,8 +164,8 @@ PROPS = {
                  K("core", "split_first_meta_var_len5", "fix-template variable scanner vs the spelling table", bound="strings over {$,A,a,_,1,space}, length <= 5"),
                  K("config", "parse_an_b_len4", "parse_an_b vs reference An+B grammar", bound="strings over {9,1,n,+,-,space}, length <= 4"),
                  K("config", "numeric_position_exact", "numeric nthChild position", complete=True)],
-        "units": ["nth_child", ("transformation", r"resolve_char|Substring")],
-        "decided": ["substring == Python slice on characters (unbounded, Verus)", "extract_meta_var spelling table", "is_matched <=> exists n >= 0. i = A*n + B (unbounded, Verus)", "template variable scanner"],
+        "units": ["nth_child", ("transformation", r"resolve_char|Substring"), "preprocess"],
+        "decided": ["pre_process_pattern (unbounded, Verus): every character other than `$` is copied unchanged, in order; a run of `$` becomes expando characters iff a name start [A-Z_] follows or it is exactly `$$$`; other runs (lone sigils, lower-case or digit-first names) stay `$`", "substring == Python slice on characters (unbounded, Verus)", "extract_meta_var spelling table", "is_matched <=> exists n >= 0. i = A*n + B (unbounded, Verus)", "template variable scanner"],
         "not_decided": ["the hole appears in the parsed pattern tree of each of the 23 languages (needs the C parsers)"],
         "assumptions": [],
     },
